@@ -145,7 +145,8 @@ class Hier:
                 continue
             fails = [z3.Not(e[3].t) for e in o.events if e[0] == "merge"]
             if fails and self.maxf is not None:
-                cnt = z3.Sum([z3.If(f, 1, 0) for f in fails])
+                terms = [z3.If(f, 1, 0) for f in fails]
+                cnt = terms[0] if len(terms) == 1 else z3.Sum(terms)
                 if not self.ex.feasible(o, cnt <= self.maxf):
                     continue
                 o.pc.append(cnt <= self.maxf)
